@@ -197,6 +197,15 @@ def modeb_configs(tier, algos, tag="modeb", parts=("B", "K3", "RB")):
                 c["prefix"] = {"P": P, "k": k, "seed": 6, "peak": 0.55, "noise": 0.25, "intbox": True}
                 c["cost"] = P * d
                 out.append(c)
+    # rewards with a large constant offset (-2^20) relative to their spread
+    for algo in algos:
+        for (P, params) in ([(40, {})] if algo in ("T_HOO", "HCT", "VHCT") else MODEB.get(algo, [])[:1]):
+            k = 1
+            c = _cfg(algo, "B", 1, P + k, dict(params), "-P%d+%d-offset" % (P, k))
+            c["name"] = tag + "-" + c["name"]
+            c["prefix"] = {"P": P, "k": k, "seed": 2, "peak": 0.55, "noise": 1.0, "offset": -1048576.0}
+            c["cost"] = P
+            out.append(c)
     # rising rewards: the search descends a single path, cells 17-20 levels deep after 36-40 rounds (DOO's default diameter
     # is then ~1e-10 of the root's, SOO's sweeps are 20 levels long)
     for algo, P, k in (("DOO", 32, 4), ("DOO", 37, 2), ("SOO", 40, 2)):
